@@ -106,9 +106,19 @@ static Level fam_chains(bool full) {
             for (auto &r0 : opts[0]) for (auto &r1 : opts[1]) for (auto &r2 : opts[2]) for (auto &r3 : opts[3]) { Case c; c.rules = {{0, r0}, {1, r1}, {2, r2}, {3, r3}}; cb(c); } }};
 }
 
+// expression grammars with k kinds of brackets: E -> E + T | T ; T -> T * F | F ; F -> d | open_i E close_i  (i < k).
+// Conflict-free, 40..280 LR(1) states: the table sizes the macro engine produces for patterns with several slots.
+static Level fam_brackets(int maxk) {
+  return {"bracket expression grammars k=1.." + std::to_string(maxk), [=](const CB &cb) {
+            for (int k = 1; k <= maxk; k++) { Case c; c.rules = {{0, {0, 11, 1}}, {0, {1}}, {1, {1, 12, 2}}, {1, {2}}, {2, {13}}};
+              for (int i = 0; i < k; i++) c.rules.push_back({2, {14 + 2 * i, 0, 15 + 2 * i}});
+              cb(c); } }};
+}
+
 int main(int argc, char **argv) {
   drv::Args args = drv::Args::parse(argc, argv); bool T = args.thorough();
   if (args.prop != "C13") { fprintf(stderr, "ERROR: unknown property\n"); return 2; }
+  if (args.part == "large") { g_maxlen = T ? 5 : 4; std::vector<Level> LL = {fam_brackets(T ? 8 : 6)}; return drv::run<Case>(args, LL, oracle_C13, {}, 120); }
   std::vector<Level> L = {fam_grammars(2, 2), fam_chains(false), fam_grammars(3, 2)};
   if (T) { g_maxlen = 5; L.push_back(fam_grammars(4, 2)); L.push_back(fam_chains(true)); L.push_back(fam_grammars(3, 3)); }
   return drv::run<Case>(args, L, oracle_C13, {}, 10);
